@@ -1110,22 +1110,25 @@ theorem frame_hk (s : Sys.Sys F) (now : Nat) (j : Nat) (l l' : FLink F)
     FrameFx now l l' :=
   frameFx_of_keepOrTorn (hk_guard s now j l l' hl hl')
 
-theorem frame_cfg (s : Sys.Sys F) (e : Sys.Ev) (he : isArm e = false) (j : Nat) (l l' : FLink F)
+theorem frame_cfg (s : Sys.Sys F) (e : Sys.Ev) (he : isArm e = false) (hnr : e.isReload = false) (j : Nat)
+    (l l' : FLink F)
     (hl : s.links[j]? = some l) (hl' : (Sys.step s e).1.links[j]? = some l') :
     FrameFx 0 l l' :=
-  frameFx_of_keepOrTorn (.inl (cfg_guard s e he j l l' hl hl'))
+  frameFx_of_keepOrTorn (.inl (cfg_guard s e he hnr j l l' hl hl'))
 
 /-- Every event that is neither a `client` nor an `uplink` event keeps the guard fields, the proof stamp
-and `connected` of every link, or tears the link down. -/
+and `connected` of every link, or tears the link down.
+`hnr`: over events / runs that keep the link set (no `Ev.reload`); a reload keeps the whole record of every retained link
+(`Props/SysReload.lean: reload_frame`) and the theorem applies again from the state after it. -/
 theorem keepOrTorn_other (s : Sys.Sys F) (e : Sys.Ev) (hne : ∀ now pkt, e ≠ .client now pkt)
-    (hu : ∀ now cid data, e ≠ .uplink now cid data) (j : Nat) (l l' : FLink F)
+    (hu : ∀ now cid data, e ≠ .uplink now cid data) (hnr : e.isReload = false) (j : Nat) (l l' : FLink F)
     (hl : s.links[j]? = some l) (hl' : (Sys.step s e).1.links[j]? = some l') : KeepOrTorn l l' := by
   cases e with
   | client now pkt => exact absurd rfl (hne now pkt)
   | uplink now cid data => exact absurd rfl (hu now cid data)
   | flush now => exact .inl (flush_guard s now j l l' hl hl')
   | hk now => exact hk_guard s now j l l' hl hl'
-  | _ => exact .inl (cfg_guard s _ rfl j l l' hl hl')
+  | _ => exact .inl (cfg_guard s _ rfl hnr j l l' hl hl')
 
 /-- The clock an event reads (0 for the clock-less configuration events). -/
 def evClock : Sys.Ev → Nat
@@ -1143,13 +1146,15 @@ every link: EITHER the guard's seven private fields — `stall_latched_since_ms`
 `stall_recovery_since_ms`, `silence_pulled`, `stall_gated`, the heard-mark, `stall_gate_events`,
 `silence_pulls` — are all unchanged, and the proof stamp is unchanged or was stamped with the event's
 clock; OR the link was torn down in this event (`TornDown`: everything cleared, proof stamp 0,
-disconnected; the two lifetime counters survive). -/
+disconnected; the two lifetime counters survive).
+`hnr`: over events / runs that keep the link set (no `Ev.reload`); a reload keeps the whole record of every retained link
+(`Props/SysReload.lean: reload_frame`) and the theorem applies again from the state after it. -/
 theorem C13_latch_fields_frame_sys (s : Sys.Sys F) (e : Sys.Ev) (hne : ∀ now pkt, e ≠ .client now pkt)
-    (j : Nat) (l l' : FLink F) (hl : s.links[j]? = some l) (hl' : (Sys.step s e).1.links[j]? = some l') :
+    (hnr : e.isReload = false) (j : Nat) (l l' : FLink F) (hl : s.links[j]? = some l) (hl' : (Sys.step s e).1.links[j]? = some l') :
     (SameGuard l l' ∧ (l'.core.proofMs = l.core.proofMs ∨ l'.core.proofMs = evClock e)) ∨
     (TornDown l' ∧ l'.gateEvents = l.gateEvents ∧ l'.silencePulls = l.silencePulls) := by
   by_cases ha : isArm e = false
-  · rcases frame_cfg s e ha j l l' hl hl' with ⟨h1, h2⟩ | h
+  · rcases frame_cfg s e ha hnr j l l' hl hl' with ⟨h1, h2⟩ | h
     · refine .inl ⟨h1, ?_⟩
       rcases h2 with h2 | h2
       · exact .inl h2
@@ -1227,8 +1232,10 @@ one effective window `clamp(4 × smoothed RTT, 1000, ceiling)` old (`effStale`, 
 `C13_effective_window`; `ceiling` = the configured `stall_stale_ceiling_ms`), and it held at least the
 configured in-flight backlog or is held by the silence pull; the latch is stamped with the event's
 clock, exactly one gate event is counted and no recovery run is recorded.  No other event — no uplink
-datagram, flush, housekeeping tick, configuration change — can latch a link. -/
-theorem C13_engage_only_if_sys (s : Sys.Sys F) (e : Sys.Ev) (j : Nat) (l l' : FLink F)
+datagram, flush, housekeeping tick, configuration change — can latch a link.
+`hnr`: over events / runs that keep the link set (no `Ev.reload`); a reload keeps the whole record of every retained link
+(`Props/SysReload.lean: reload_frame`) and the theorem applies again from the state after it. -/
+theorem C13_engage_only_if_sys (s : Sys.Sys F) (e : Sys.Ev) (hnr : e.isReload = false) (j : Nat) (l l' : FLink F)
     (hl : s.links[j]? = some l) (hl' : (Sys.step s e).1.links[j]? = some l')
     (h0 : l.latchedSince = 0) (h1 : l'.latchedSince ≠ 0) :
     ∃ now pkt, e = .client now pkt ∧ pkt ≠ [] ∧ s.reg.hasConnected = true ∧ s.cfg.stallDeselect = true ∧
@@ -1251,7 +1258,7 @@ theorem C13_engage_only_if_sys (s : Sys.Sys F) (e : Sys.Ev) (j : Nat) (l l' : FL
       · exact absurd a1 h1
     · exact absurd t1 h1
   · have hne : ∀ now pkt, e ≠ .client now pkt := fun now pkt h => hc ⟨now, pkt, h⟩
-    rcases C13_latch_fields_frame_sys s e hne j l l' hl hl' with ⟨⟨k1, -⟩, -⟩ | ⟨⟨t1, -⟩, -⟩
+    rcases C13_latch_fields_frame_sys s e hne hnr j l l' hl hl' with ⟨⟨k1, -⟩, -⟩ | ⟨⟨t1, -⟩, -⟩
     · rw [k1] at h1; exact absurd h0 h1
     · exact absurd t1 h1
 
@@ -1260,8 +1267,10 @@ from latched to un-latched, then either the link was torn down in that event (`T
 REG_ERR, reconnect attempt), or the event is a `client` datagram whose selection pass ran with the guard
 OFF, or with the guard ON and exactly under the release condition of `C13_release_iff`: proof fresh at
 that clock and the recovery run (starting now if none is recorded) at least twice the effective window
-long. -/
-theorem C13_unlatch_only_by_sys (s : Sys.Sys F) (e : Sys.Ev) (j : Nat) (l l' : FLink F)
+long.
+`hnr`: over events / runs that keep the link set (no `Ev.reload`); a reload keeps the whole record of every retained link
+(`Props/SysReload.lean: reload_frame`) and the theorem applies again from the state after it. -/
+theorem C13_unlatch_only_by_sys (s : Sys.Sys F) (e : Sys.Ev) (hnr : e.isReload = false) (j : Nat) (l l' : FLink F)
     (hl : s.links[j]? = some l) (hl' : (Sys.step s e).1.links[j]? = some l')
     (h0 : l.latchedSince ≠ 0) (h1 : l'.latchedSince = 0) :
     TornDown l' ∨
@@ -1284,7 +1293,7 @@ theorem C13_unlatch_only_by_sys (s : Sys.Sys F) (e : Sys.Ev) (j : Nat) (l l' : F
       · exact .inr ⟨now, pkt, rfl, hne, hreg, .inl hoff⟩
     · exact .inl t
   · have hne : ∀ now pkt, e ≠ .client now pkt := fun now pkt h => hc ⟨now, pkt, h⟩
-    rcases C13_latch_fields_frame_sys s e hne j l l' hl hl' with ⟨⟨k1, -⟩, -⟩ | ⟨t, -⟩
+    rcases C13_latch_fields_frame_sys s e hne hnr j l l' hl hl' with ⟨⟨k1, -⟩, -⟩ | ⟨t, -⟩
     · rw [k1] at h1; exact absurd h1 h0
     · exact .inl t
 
@@ -1301,7 +1310,7 @@ theorem C13_release_iff_sys (s : Sys.Sys F) (now : Nat) (pkt : Sys.Bytes) (j : N
           2 * effStale l.toSLink s.cfg.stallCeilingMs) ∨ TornDown l' := by
   constructor
   · intro h1
-    rcases C13_unlatch_only_by_sys s _ j l l' hl hl' hlat h1 with t | ⟨now', pkt', he, -, -, h⟩
+    rcases C13_unlatch_only_by_sys s _ rfl j l l' hl hl' hlat h1 with t | ⟨now', pkt', he, -, -, h⟩
     · exact .inr t
     · cases he
       rcases h with h | ⟨-, h⟩
@@ -1324,8 +1333,10 @@ theorem C13_release_iff_sys (s : Sys.Sys F) (now : Nat) (pkt : Sys.Bytes) (j : N
 /-- **The silence pull releases only when the link is heard again or disconnects, at shell level.**  If
 ANY event clears a held pull, then the link was torn down in that event, or the event is a `client`
 datagram whose pass ran with the guard off, or with the guard on and the link's `last_received` differs
-from the heard-mark recorded when the pull engaged, or the link is disconnected. -/
-theorem C13_pull_release_only_if_heard_sys (s : Sys.Sys F) (e : Sys.Ev) (j : Nat) (l l' : FLink F)
+from the heard-mark recorded when the pull engaged, or the link is disconnected.
+`hnr`: over events / runs that keep the link set (no `Ev.reload`); a reload keeps the whole record of every retained link
+(`Props/SysReload.lean: reload_frame`) and the theorem applies again from the state after it. -/
+theorem C13_pull_release_only_if_heard_sys (s : Sys.Sys F) (e : Sys.Ev) (hnr : e.isReload = false) (j : Nat) (l l' : FLink F)
     (hl : s.links[j]? = some l) (hl' : (Sys.step s e).1.links[j]? = some l')
     (h0 : l.silencePulled = true) (h1 : l'.silencePulled = false) :
     TornDown l' ∨
@@ -1345,7 +1356,7 @@ theorem C13_pull_release_only_if_heard_sys (s : Sys.Sys F) (e : Sys.Ev) (j : Nat
       · exact .inr ⟨now, pkt, rfl, hne, hreg, .inl hoff⟩
     · exact .inl t
   · have hne : ∀ now pkt, e ≠ .client now pkt := fun now pkt h => hc ⟨now, pkt, h⟩
-    rcases C13_latch_fields_frame_sys s e hne j l l' hl hl' with ⟨⟨-, -, k3, -⟩, -⟩ | ⟨t, -⟩
+    rcases C13_latch_fields_frame_sys s e hne hnr j l l' hl hl' with ⟨⟨-, -, k3, -⟩, -⟩ | ⟨t, -⟩
     · rw [k3, h0] at h1; cases h1
     · exact .inl t
 
@@ -1357,8 +1368,10 @@ the event is an uplink datagram and one of the three causes of `C09_proof_stamp`
 (type 0x9100) naming a number this link's log held (stamp = the clock), the echo (type 0x9000) on this
 link's own socket of an outstanding keepalive probe with age in `(0, 10000]` ms (stamp = the clock), or a
 REG_ERR (0x9210) on this link (stamp 0).  Client datagrams, flushes and housekeeping ticks never stamp
-proof. -/
-theorem C13_proof_stamp_sys (s : Sys.Sys F) (e : Sys.Ev) (j : Nat) (l l' : FLink F)
+proof.
+`hnr`: over events / runs that keep the link set (no `Ev.reload`); a reload keeps the whole record of every retained link
+(`Props/SysReload.lean: reload_frame`) and the theorem applies again from the state after it. -/
+theorem C13_proof_stamp_sys (s : Sys.Sys F) (e : Sys.Ev) (hnr : e.isReload = false) (j : Nat) (l l' : FLink F)
     (hl : s.links[j]? = some l) (hl' : (Sys.step s e).1.links[j]? = some l')
     (hchg : l'.core.proofMs ≠ l.core.proofMs) :
     TornDown l' ∨
@@ -1387,7 +1400,7 @@ theorem C13_proof_stamp_sys (s : Sys.Sys F) (e : Sys.Ev) (j : Nat) (l l' : FLink
       · exact .inl t
     · have hne : ∀ now pkt, e ≠ .client now pkt := fun now pkt h => hc ⟨now, pkt, h⟩
       have hu' : ∀ now cid data, e ≠ .uplink now cid data := fun now cid data h => hu ⟨now, cid, data, h⟩
-      rcases keepOrTorn_other s e hne hu' j l l' hl hl' with h | h
+      rcases keepOrTorn_other s e hne hu' hnr j l l' hl hl' with h | h
       · exact absurd h.proof hchg
       · exact .inl (tornDown_of_torn h).1
 
@@ -1400,9 +1413,18 @@ theorem C13_never_proof_never_latched_step (s : Sys.Sys F) (e : Sys.Ev)
     (h : ∀ l ∈ s.links, l.core.proofMs = 0 → l.latchedSince = 0) :
     ∀ l' ∈ (Sys.step s e).1.links, l'.core.proofMs = 0 → l'.latchedSince = 0 := by
   intro l' hmem hp
+  by_cases hr : e.isReload = true
+  · -- a reload: a retained link has its old record, a fresh link has no proof and is not latched
+    cases e with
+    | reload rnow raddrs routs =>
+      rcases Sys.mem_reload hmem with ⟨h1, -⟩ | ⟨id, a, -, -, rfl⟩
+      · exact h l' h1 hp
+      · rfl
+    | _ => cases hr
+  have hnr : e.isReload = false := Bool.eq_false_iff.2 hr
   obtain ⟨j, hj, hget⟩ := List.getElem_of_mem hmem
   have hl' : (Sys.step s e).1.links[j]? = some l' := by rw [← hget]; exact List.getElem?_eq_getElem hj
-  have hlen : (Sys.step s e).1.links.length = s.links.length := (Hk.step_link s e).2.1
+  have hlen : (Sys.step s e).1.links.length = s.links.length := (Hk.step_link s e hnr).2.1
   have hj' : j < s.links.length := by omega
   have hl : s.links[j]? = some s.links[j] := List.getElem?_eq_getElem hj'
   have hinv := h s.links[j] (List.getElem_mem hj')
@@ -1432,7 +1454,7 @@ theorem C13_never_proof_never_latched_step (s : Sys.Sys F) (e : Sys.Ev)
       | reg3 hs hpp _ => rw [hs.latched]; rw [hpp] at hp; exact hinv hp
       | torn ht => exact ht.latched
     · have hu' : ∀ now cid data, e ≠ .uplink now cid data := fun now cid data h => hu ⟨now, cid, data, h⟩
-      rcases keepOrTorn_other s e hne hu' j l l' hl hl' with hk | ht
+      rcases keepOrTorn_other s e hne hu' hnr j l l' hl hl' with hk | ht
       · rw [hk.latched]; rw [hk.proof] at hp; exact hinv hp
       · exact ht.latched
 
@@ -1475,20 +1497,25 @@ theorem C13_never_proof_never_latched_from_init (n t0 : Nat) (reg : Reg.Reg) (cf
   rfl
 
 /-- **Frame, along runs**: at every position of every run, an event that is not a `client` event leaves
-the guard's seven fields of every link unchanged or tears the link down. -/
+the guard's seven fields of every link unchanged or tears the link down.
+`hnr` (the LAST event only): over events / runs that keep the link set (no `Ev.reload`); a reload keeps the whole record of
+every retained link (`Props/SysReload.lean: reload_frame`) and the theorem applies again from the state after it. -/
 theorem C13_latch_fields_frame_run (s : Sys.Sys F) (pre : List Sys.Ev) (e : Sys.Ev)
-    (hne : ∀ now pkt, e ≠ .client now pkt) (j : Nat) (l l' : FLink F)
+    (hne : ∀ now pkt, e ≠ .client now pkt) (hnr : e.isReload = false) (j : Nat) (l l' : FLink F)
     (hl : (Sys.run s pre).1.links[j]? = some l) (hl' : (Sys.run s (pre ++ [e])).1.links[j]? = some l') :
     (SameGuard l l' ∧ (l'.core.proofMs = l.core.proofMs ∨ l'.core.proofMs = evClock e)) ∨
     (TornDown l' ∧ l'.gateEvents = l.gateEvents ∧ l'.silencePulls = l.silencePulls) := by
   rw [run_snoc_fst] at hl'
-  exact C13_latch_fields_frame_sys _ e hne j l l' hl hl'
+  exact C13_latch_fields_frame_sys _ e hne hnr j l l' hl hl'
 
 /-- **Engage only if, along runs**: whenever, at any position of any run, a link goes from un-latched
 to latched, the event is a `client` datagram routed by the scheduler with the guard on, and the link —
 in the state the run had reached — had delivery proof at least one effective window old and a backlog
-of at least the threshold (or is held by the silence pull). -/
-theorem C13_engage_only_if_run (s : Sys.Sys F) (pre : List Sys.Ev) (e : Sys.Ev) (j : Nat) (l l' : FLink F)
+of at least the threshold (or is held by the silence pull).
+`hnr` (the LAST event only): over events / runs that keep the link set (no `Ev.reload`); a reload keeps the whole record of
+every retained link (`Props/SysReload.lean: reload_frame`) and the theorem applies again from the state after it. -/
+theorem C13_engage_only_if_run (s : Sys.Sys F) (pre : List Sys.Ev) (e : Sys.Ev) (hnr : e.isReload = false) (j : Nat)
+    (l l' : FLink F)
     (hl : (Sys.run s pre).1.links[j]? = some l) (hl' : (Sys.run s (pre ++ [e])).1.links[j]? = some l')
     (h0 : l.latchedSince = 0) (h1 : l'.latchedSince ≠ 0) :
     ∃ now pkt, e = .client now pkt ∧ pkt ≠ [] ∧ (Sys.run s pre).1.reg.hasConnected = true ∧
@@ -1498,10 +1525,13 @@ theorem C13_engage_only_if_run (s : Sys.Sys F) (pre : List Sys.Ev) (e : Sys.Ev) 
       (l.core.inFlight ≥ (Sys.run s pre).1.cfg.stallMinInFlight ∨ l'.silencePulled = true) ∧
       l'.latchedSince = now ∧ l'.gateEvents = l.gateEvents + 1 ∧ l'.recoverySince = 0 := by
   rw [run_snoc_fst] at hl'
-  exact C13_engage_only_if_sys _ e j l l' hl hl' h0 h1
+  exact C13_engage_only_if_sys _ e hnr j l l' hl hl' h0 h1
 
-/-- **Un-latch only by, along runs.** -/
-theorem C13_unlatch_only_by_run (s : Sys.Sys F) (pre : List Sys.Ev) (e : Sys.Ev) (j : Nat) (l l' : FLink F)
+/-- **Un-latch only by, along runs.**
+`hnr` (the LAST event only): over events / runs that keep the link set (no `Ev.reload`); a reload keeps the whole record of
+every retained link (`Props/SysReload.lean: reload_frame`) and the theorem applies again from the state after it. -/
+theorem C13_unlatch_only_by_run (s : Sys.Sys F) (pre : List Sys.Ev) (e : Sys.Ev) (hnr : e.isReload = false) (j : Nat)
+    (l l' : FLink F)
     (hl : (Sys.run s pre).1.links[j]? = some l) (hl' : (Sys.run s (pre ++ [e])).1.links[j]? = some l')
     (h0 : l.latchedSince ≠ 0) (h1 : l'.latchedSince = 0) :
     TornDown l' ∨
@@ -1512,7 +1542,7 @@ theorem C13_unlatch_only_by_run (s : Sys.Sys F) (pre : List Sys.Ev) (e : Sys.Ev)
         now - (if l.recoverySince = 0 then now else l.recoverySince) ≥
           2 * effStale l.toSLink (Sys.run s pre).1.cfg.stallCeilingMs)) := by
   rw [run_snoc_fst] at hl'
-  exact C13_unlatch_only_by_sys _ e j l l' hl hl' h0 h1
+  exact C13_unlatch_only_by_sys _ e hnr j l l' hl hl' h0 h1
 
 /-! ### a single ACK never releases, along runs of the shell -/
 
@@ -1520,8 +1550,9 @@ theorem C13_unlatch_only_by_run (s : Sys.Sys F) (pre : List Sys.Ev) (e : Sys.Ev)
 stamp is `t0 ≠ 0` and its recovery run (if any) did not start before `t0`.  If the event leaves the proof
 stamp at `t0` (no further proof, no tear-down), and — in case it is a client datagram — reads a clock
 `≥ t0` and does not run the pass with the guard off, the link is still latched afterwards and the recovery
-run still did not start before `t0`. -/
-theorem single_ack_step (s : Sys.Sys F) (e : Sys.Ev) (j : Nat) (l l' : FLink F) (t0 : Nat)
+run still did not start before `t0`.
+`hnr`: the event is no reload (index-based). -/
+theorem single_ack_step (s : Sys.Sys F) (e : Sys.Ev) (hnr : e.isReload = false) (j : Nat) (l l' : FLink F) (t0 : Nat)
     (hl : s.links[j]? = some l) (hl' : (Sys.step s e).1.links[j]? = some l')
     (ht0 : t0 ≠ 0) (hlat : l.latchedSince ≠ 0) (hp : l.core.proofMs = t0)
     (hr : l.recoverySince = 0 ∨ t0 ≤ l.recoverySince)
@@ -1548,7 +1579,7 @@ theorem single_ack_step (s : Sys.Sys F) (e : Sys.Ev) (j : Nat) (l l' : FLink F) 
       · rw [hgon hne hreg] at hoff; cases hoff
     · rw [t6] at hp'; exact absurd hp'.symm ht0
   · have hne : ∀ now pkt, e ≠ .client now pkt := fun now pkt h => hc ⟨now, pkt, h⟩
-    rcases C13_latch_fields_frame_sys s e hne j l l' hl hl' with ⟨⟨k1, k2, -⟩, -⟩ | ⟨⟨-, -, -, -, -, t6, -⟩, -⟩
+    rcases C13_latch_fields_frame_sys s e hne hnr j l l' hl hl' with ⟨⟨k1, k2, -⟩, -⟩ | ⟨⟨-, -, -, -, -, t6, -⟩, -⟩
     · rw [k1, k2]; exact ⟨hlat, hr⟩
     · rw [t6] at hp'; exact absurd hp'.symm ht0
 
@@ -1588,8 +1619,11 @@ delivery proof is stamped `t0` and no recovery run started before `t0` (in parti
 nothing but time passes for that link (`QuietFor`: no further proof, no tear-down, client clocks `≥ t0`,
 guard not switched off) — any number of client datagrams and hence scheduling passes at any spacing, any
 uplink datagrams that bring it no proof, flush / housekeeping ticks, configuration changes of thresholds
-and ceiling, traffic and events on the other links — the link stays latched. -/
-theorem C13_single_ack_never_releases_sys_run (s : Sys.Sys F) (evs : List Sys.Ev) (j t0 : Nat) (l : FLink F)
+and ceiling, traffic and events on the other links — the link stays latched.
+`hnr`: over events / runs that keep the link set (no `Ev.reload`); a reload keeps the whole record of every retained link
+(`Props/SysReload.lean: reload_frame`) and the theorem applies again from the state after it. -/
+theorem C13_single_ack_never_releases_sys_run (s : Sys.Sys F) (evs : List Sys.Ev) (hnr : Sys.NoReload evs) (j t0 : Nat)
+    (l : FLink F)
     (hl : s.links[j]? = some l) (ht0 : t0 ≠ 0) (hlat : l.latchedSince ≠ 0) (hp : l.core.proofMs = t0)
     (hr : l.recoverySince = 0 ∨ t0 ≤ l.recoverySince) (hq : QuietFor t0 j s evs) :
     ∃ lf, (Sys.run s evs).1.links[j]? = some lf ∧ lf.latchedSince ≠ 0 ∧ lf.core.proofMs = t0 := by
@@ -1597,7 +1631,7 @@ theorem C13_single_ack_never_releases_sys_run (s : Sys.Sys F) (evs : List Sys.Ev
   | nil => exact ⟨l, hl, hlat, hp⟩
   | cons e evs ih =>
     obtain ⟨⟨q1, q2⟩, q3⟩ := hq
-    have hlen : (Sys.step s e).1.links.length = s.links.length := (Hk.step_link s e).2.1
+    have hlen : (Sys.step s e).1.links.length = s.links.length := (Hk.step_link s e hnr.head).2.1
     have hj : j < (Sys.step s e).1.links.length := by
       rw [hlen]; exact (List.getElem?_eq_some_iff.1 hl).1
     have hl' : (Sys.step s e).1.links[j]? = some (Sys.step s e).1.links[j] := List.getElem?_eq_getElem hj
@@ -1608,8 +1642,8 @@ theorem C13_single_ack_never_releases_sys_run (s : Sys.Sys F) (evs : List Sys.Ev
         t0 ≤ now ∧ (pkt ≠ [] → s.reg.hasConnected = true → s.cfg.stallDeselect = true) := by
       rintro now pkt rfl
       exact q2
-    obtain ⟨a, b⟩ := single_ack_step s e j l _ t0 hl hl' ht0 hlat hp hr hp' q2'
-    exact ih (Sys.step s e).1 _ hl' a hp' b q3
+    obtain ⟨a, b⟩ := single_ack_step s e hnr.head j l _ t0 hl hl' ht0 hlat hp hr hp' q2'
+    exact ih (Sys.step s e).1 hnr.tail _ hl' a hp' b q3
 
 /-! ### non-vacuity: a concrete shell state and runs (`fixScalar`: the kernel evaluates the pass) -/
 
@@ -1718,12 +1752,14 @@ open Srtla.Link Srtla.SelShell
 
 /-- **A shell run, seen from link `j`, is a history of the alphabet.**  For every start state, event list
 (no uplink datagram processed at clock 0) and link index: the selection view of link `j` after
-`Sys.run s evs` is `StallLatch.run` of its view before, along `runSteps s evs j`. -/
-theorem C13_shell_run_is_history (s : Sys.Sys F) (evs : List Sys.Ev) (j : Nat) (l : FLink F)
+`Sys.run s evs` is `StallLatch.run` of its view before, along `runSteps s evs j`.
+`hnr`: over events / runs that keep the link set (no `Ev.reload`); a reload keeps the whole record of every retained link
+(`Props/SysReload.lean: reload_frame`) and the theorem applies again from the state after it. -/
+theorem C13_shell_run_is_history (s : Sys.Sys F) (evs : List Sys.Ev) (hnr : Sys.NoReload evs) (j : Nat) (l : FLink F)
     (hl : s.links[j]? = some l)
     (hclk : ∀ e ∈ evs, ∀ now cid data, e = .uplink now cid data → 0 < now) :
     ∃ lf, (Sys.run s evs).1.links[j]? = some lf ∧ lf.toSLink = run l.toSLink (runSteps s evs j) :=
-  runSteps_sound s evs j l hl hclk
+  runSteps_sound s evs j l hl hclk hnr
 
 /-- **What the steps of the history are.**  The history of a run is the concatenation, event by event, of
 `evSteps` (in the state the run had reached), and every step an event contributes is: an `env` step; or
@@ -1783,8 +1819,10 @@ pass (`historyToPass`) ends in a `FreshRun` — a segment whose first step is a 
 which consists of passes and environment steps only (no tear-down of the link, no guard-off pass), and in
 which EVERY pass — i.e. every scheduling decision the shell took from `t0` on — found the link latched
 with fresh proof (each at its own clock, RTT baseline and configured ceiling) — and
-`now − t0 ≥ 2 × clamp(4 × smoothed RTT, 1000, ceiling)` evaluated at the releasing decision. -/
-theorem C13_release_only_after_dwell_sys_run (s : Sys.Sys F) (pre : List Sys.Ev) (now : Nat)
+`now − t0 ≥ 2 × clamp(4 × smoothed RTT, 1000, ceiling)` evaluated at the releasing decision.
+`hnr`: over events / runs that keep the link set (no `Ev.reload`); a reload keeps the whole record of every retained link
+(`Props/SysReload.lean: reload_frame`) and the theorem applies again from the state after it. -/
+theorem C13_release_only_after_dwell_sys_run (s : Sys.Sys F) (pre : List Sys.Ev) (hnr : Sys.NoReload pre) (now : Nat)
     (pkt : Sys.Bytes) (j : Nat) (l0 l l' : FLink F)
     (hl0 : s.links[j]? = some l0) (h0 : l0.latchedSince ≠ 0 → l0.recoverySince = 0)
     (hclk : ∀ e ∈ pre, ∀ now cid data, e = .uplink now cid data → 0 < now)
@@ -1801,7 +1839,7 @@ theorem C13_release_only_after_dwell_sys_run (s : Sys.Sys F) (pre : List Sys.Ev)
   have hcond : (l.core.proofMs ≠ 0 ∧ now - l.core.proofMs < effStale l.toSLink (Sys.run s pre).1.cfg.stallCeilingMs) ∧
       now - (if l.recoverySince = 0 then now else l.recoverySince) ≥
         2 * effStale l.toSLink (Sys.run s pre).1.cfg.stallCeilingMs := by
-    rcases C13_unlatch_only_by_sys _ _ j l l' hl hl'' hlat hrel with t | ⟨now', pkt', he, -, -, h⟩
+    rcases C13_unlatch_only_by_sys _ _ rfl j l l' hl hl'' hlat hrel with t | ⟨now', pkt', he, -, -, h⟩
     · exact absurd t hnt
     · cases he
       rcases h with h | ⟨-, h⟩
@@ -1811,7 +1849,7 @@ theorem C13_release_only_after_dwell_sys_run (s : Sys.Sys F) (pre : List Sys.Ev)
       (Sys.run s pre).1.cfg.stallCeilingMs).latchedSince = 0 :=
     (C13_release_iff l.toSLink now _ _ hlat).2 hcond
   -- the view reached by the history of `pre` is `l`'s
-  obtain ⟨lf, hlf, hview⟩ := runSteps_sound s pre j l0 hl0 hclk
+  obtain ⟨lf, hlf, hview⟩ := runSteps_sound s pre j l0 hl0 hclk hnr
   rw [hl] at hlf
   cases hlf
   have hstamp : run l0.toSLink (runSteps s pre j ++
